@@ -356,6 +356,11 @@ func drainWait(l *memListener, d time.Duration) {
 // layer `proxy`: proxyRequestOnStream over a pipe
 
 func ccbProxyCase(label string, reply string, msg string, hello ccbGreet, old []string) *ccbOut {
+	return ccbProxyCaseClaim(label, reply, msg, hello, old, "", "")
+}
+
+// ccbProxyCaseClaim: the broker's reply ad itself carries a ClaimId of kind `replyClaim` (ccbReplyClaims).
+func ccbProxyCaseClaim(label string, reply string, msg string, hello ccbGreet, old []string, replyClaim, replyRand string) *ccbOut {
 	o := &ccbOut{cs: Case{Label: label}}
 	if ccbViolations.Load() >= ccbEnough {
 		o.count("skipped:enough-violations")
@@ -388,7 +393,7 @@ func ccbProxyCase(label string, reply string, msg string, hello ccbGreet, old []
 	}()
 	var wg sync.WaitGroup
 	wg.Add(1)
-	var tok string
+	var tok, claimTok string
 	var matching bool
 	idSeen := ""
 	go func() {
@@ -400,13 +405,16 @@ func ccbProxyCase(label string, reply string, msg string, hello ccbGreet, old []
 		}
 		var b []byte
 		var after string
-		b, after, tok, matching = hello.wire(env)
 		var pre []byte
 		switch reply {
 		case "ok":
-			pre = controlAdWire(ccb.NewAd(map[string]any{ccb.AttrResult: true}))
+			attrs := map[string]any{ccb.AttrResult: true}
+			claimTok = ccbWithReplyClaim(attrs, replyClaim, replyRand, &env)
+			pre = controlAdWire(ccb.NewAd(attrs))
 		case "fail":
-			pre = controlAdWire(ccb.NewAd(map[string]any{ccb.AttrResult: false, ccb.AttrErrorString: msg}))
+			attrs := map[string]any{ccb.AttrResult: false, ccb.AttrErrorString: msg}
+			claimTok = ccbWithReplyClaim(attrs, replyClaim, replyRand, &env)
+			pre = controlAdWire(ccb.NewAd(attrs))
 		case "noresult":
 			pre = controlAdWire(ccb.NewAd(map[string]any{ccb.AttrErrorString: msg}))
 		case "unsup":
@@ -414,9 +422,11 @@ func ccbProxyCase(label string, reply string, msg string, hello ccbGreet, old []
 		case "junk":
 			pre = []byte{0x7f, 1, 2, 3, 4, 5, 6}
 		case "close":
+			_, _, tok, matching = hello.wire(env)
 			_ = bc.Close()
 			return
 		}
+		b, after, tok, matching = hello.wire(env)
 		_ = bc.SetWriteDeadline(time.Now().Add(ccbIOBound))
 		if _, err := bc.Write(append(pre, b...)); err != nil {
 			return
@@ -450,13 +460,19 @@ func ccbProxyCase(label string, reply string, msg string, hello ccbGreet, old []
 	} else {
 		real = "err none"
 	}
+	if reply == "ok" || reply == "fail" {
+		rt += claimTok
+	}
 	o.log(fmt.Sprintf("proxy ID 1 1 0 %s %s", rt, tok), real)
 	if idSeen != id {
 		o.violate("C20:proxy-request-id", "the request ad did not carry the connect id handed to proxyRequestOnStream", id, idSeen)
 	}
 	if r.conn != nil && r.err == nil && !(reply == "ok" && matching) {
 		o.violate("C20:proxy-returned-nonmatching:"+reply+":"+ccbKind(hello), "proxied dial handed back the broker connection without a success reply followed by the matching hello",
-			"error", "connection returned after reply="+reply+" hello="+hello.String())
+			"error", "connection returned after reply="+reply+" (reply's own ClaimId: "+dashIfEmpty(replyClaim)+") hello="+hello.String())
+	}
+	if replyClaim != "" {
+		o.count("proxy:reply-claim:" + replyClaim + ":hello:" + hello.Claim)
 	}
 	o.nontrivial = true
 	o.count("proxy:reply:" + reply)
@@ -1121,8 +1137,18 @@ func ccbProxyPlan(c *Ctx, kind string, outcome string, others []int) ccbPlan {
 	switch outcome {
 	case "match":
 		pl.PReply, pl.PHello = "ok", ccbRandGreet(c, "match", false, nil)
+		if c.Rng.Intn(3) == 0 { // the reply names an id too: it must not matter
+			pl.PClaim, pl.PRand = ccbReplyClaims[c.Rng.Intn(len(ccbReplyClaims))], ccbRandID(c)
+		}
 	case "roguehello":
 		pl.PReply, pl.PHello = "ok", ccbRandGreet(c, "rogue", false, others)
+		if c.Rng.Intn(2) == 0 {
+			// the broker names an id in its reply and the hello presents exactly that one
+			pl.PClaim, pl.PRand = ccbReplyClaims[1+c.Rng.Intn(len(ccbReplyClaims)-1)], ccbRandID(c)
+			if pl.PClaim != "SAME" && c.Rng.Intn(3) != 0 {
+				pl.PHello = ccbGreet{Class: "hello", Cmd: int64(ccb.CommandReverseConnect), Claim: "BROKER", Attr: "ClaimId", Extras: c.Rng.Intn(2) == 0, Rand: ccbRandID(c)}
+			}
+		}
 	case "fail":
 		pl.PReply, pl.PMsg, pl.PHello = "fail", ccbMsg(c), ccbRandGreet(c, "", false, others)
 	case "unsup":
@@ -1312,6 +1338,17 @@ func runCcb(c *Ctx) error {
 			}
 			for j := 0; j < nr; j++ {
 				outs = append(outs, ccbProxyCase(fmt.Sprintf("proxy/%s/rand#%d", r, j), r, ccbMsg(c), ccbRandGreet(c, "", rep == 0 && j < 10, nil), old))
+			}
+			// the reply ad ITSELF names a connect id (the requester's own, another one, an earlier
+			// request's, garbage) and the replayed hello presents each candidate: the id the broker
+			// named, the requester's own, some other
+			if r == "ok" || r == "fail" {
+				for _, rc := range ccbReplyClaims[1:] {
+					for _, hc := range []string{"BROKER", "ID", "RAND", "OLD", "EMPTY"} {
+						h := ccbGreet{Class: "hello", Cmd: int64(ccb.CommandReverseConnect), Claim: hc, Attr: ccbAttrs[c.Rng.Intn(len(ccbAttrs))], Extras: c.Rng.Intn(2) == 0, Rand: ccbRandID(c)}
+						outs = append(outs, ccbProxyCaseClaim(fmt.Sprintf("proxy/%s+claim:%s/hello:%s", r, rc, hc), r, ccbMsg(c), h, old, rc, ccbRandID(c)))
+					}
+				}
 			}
 		}
 	}
